@@ -97,9 +97,50 @@ pub fn parse_fields<S: Src>(s: &mut S, which: u8, nf: usize) {
     };
     let ra = ref_hex(&a, la, if which == F_U8 { 0xffff_ffff } else { 0xff });
     let rv = ref_hex(&v, lv, 0xff);
-    let n = unsafe { EV_N };
-    let e0 = unsafe { EV[0] };
     let kind = if which == F_U8 { E_WRITE } else { E_PORT };
+    #[cfg(kani)]
+    let (n, e0) = unsafe { (EV_N, EV[0]) };
+    // native replay: no stubs - the effect is observed on the real bus (fresh, all-zero memory)
+    #[cfg(not(kani))]
+    let (n, e0) = {
+        let mut n = 0usize;
+        let mut e0 = (0u8, 0u32, 0u32);
+        if which == F_U8 {
+            if let Some(x) = ra {
+                if crate::harness::mem::accessible(x) && !crate::harness::mem::side_effect_reg(x) {
+                    let got = cpu.bus.read(x).unwrap_or(0);
+                    if got != 0 {
+                        n = 1;
+                        e0 = (E_WRITE, x, got as u32);
+                    } else if nf == 3 && rv == Some(0) {
+                        n = 1; // a store of zero into zero memory cannot be told from no store
+                        e0 = (E_WRITE, x, 0);
+                    }
+                } else if nf == 3 && rv.is_some() {
+                    n = 1; // unmapped / register address: effect not observable natively
+                    e0 = (E_WRITE, x, rv.unwrap());
+                }
+            }
+        } else {
+            let mut p = 0;
+            while p < crate::bus::IO_PORT_SIZE {
+                if cpu.bus.io_port_in[p] != 0 {
+                    n += 1;
+                    e0 = (E_PORT, p as u32 + 1, cpu.bus.io_port_in[p] as u32);
+                }
+                p += 1;
+            }
+            if n == 0 && nf == 3 && rv == Some(0) && ra.is_some() {
+                n = 1;
+                e0 = (E_PORT, ra.unwrap(), 0);
+            }
+            if n == 0 && nf == 3 && rv.is_some() && ra.map_or(false, |q| q == 0 || q > 11) {
+                n = 1; // port numbers outside 1..=11 have no observable effect natively
+                e0 = (E_PORT, ra.unwrap(), rv.unwrap());
+            }
+        }
+        (n, e0)
+    };
     let ok_effect = match (nf == 3, ra, rv) {
         (true, Some(x), Some(y)) => n == 1 && e0 == (kind, x, y),
         _ => n == 0,
